@@ -223,7 +223,7 @@ func c33Gen(r *core.Rand, tier string) any {
 
 // ---------------------------------------------------------------- SQL workload (deterministic: no time, no random)
 
-const c33Schema = "CREATE TABLE t (id INTEGER PRIMARY KEY, v INTEGER, s TEXT, b BLOB, f REAL)"
+const c33Schema = "CREATE TABLE IF NOT EXISTS t (id INTEGER PRIMARY KEY, v INTEGER, s TEXT, b BLOB, f REAL)"
 
 func c33Insert(k int) string {
 	return fmt.Sprintf("INSERT INTO t(v,s,b,f) VALUES(%d,'row-%d',x'%02x%02x',%d.5)", k, k, k%256, (k*7)%256, k)
@@ -253,9 +253,9 @@ func c33Mix(k int) []string {
 // constraint enforced several of these are rejected (statement-level error,
 // nothing applied); all of them are still entries of the raft log.
 var c33FKSchema = []string{
-	"CREATE TABLE parent (id INTEGER PRIMARY KEY, name TEXT)",
-	"CREATE TABLE child (id INTEGER PRIMARY KEY, pid INTEGER REFERENCES parent(id), v INTEGER)",
-	"CREATE TABLE child2 (id INTEGER PRIMARY KEY, pid INTEGER REFERENCES parent(id) ON DELETE CASCADE, v INTEGER)",
+	"CREATE TABLE IF NOT EXISTS parent (id INTEGER PRIMARY KEY, name TEXT)",
+	"CREATE TABLE IF NOT EXISTS child (id INTEGER PRIMARY KEY, pid INTEGER REFERENCES parent(id), v INTEGER)",
+	"CREATE TABLE IF NOT EXISTS child2 (id INTEGER PRIMARY KEY, pid INTEGER REFERENCES parent(id) ON DELETE CASCADE, v INTEGER)",
 }
 
 func c33FK(k int) (stmts []string, tx bool) {
@@ -339,6 +339,8 @@ type c33Victim struct {
 	orig    *node.Node
 	pre     string
 	mayTail bool
+	lastIdx uint64 // last log index / term when the victim was cut off
+	lastTrm uint64
 	n       *node.Node // node object used for the restart (may differ from the original when moved)
 }
 
@@ -359,6 +361,7 @@ type c33Run struct {
 	hookDir  string
 	hookImg  string
 	imgOK    bool
+	fatals   []string
 }
 
 var errC33Injected = errors.New("verif: injected I/O error")
@@ -379,7 +382,7 @@ func c33RunFn(c *core.Ctx, raw json.RawMessage) {
 	// crash images inside RecoverNode: the hook copies the directory synchronously
 	// (the recovering process is a single goroutine at that point, nothing else of
 	// that node runs yet)
-	verifx.InstallHooks(x.hit, nil, nil, nil, nil)
+	verifx.InstallHooks(x.hit, nil, nil, nil, x.fatal)
 	defer verifx.ResetHooks()
 	if err := s.Boot(sc.Nodes, sc.Knobs, nil); err != nil {
 		c.Discard("boot-failed: " + err.Error())
@@ -392,7 +395,17 @@ func c33RunFn(c *core.Ctx, raw json.RawMessage) {
 	if sc.Knobs.FKConstraints {
 		schema = append(schema, c33FKSchema...)
 	}
-	if ok, rej := c33ExecMulti(s, opsSettle(s, 0), schema, false); !ok || rej > 0 {
+	schemaOK := false
+	for attempt := 0; attempt < 5 && !schemaOK; attempt++ {
+		// leadership may still move right after the joins; the statements are idempotent
+		l := opsSettle(s, 0)
+		if l == nil {
+			continue
+		}
+		ok, rej := c33ExecMulti(s, l, schema, false)
+		schemaOK = ok && rej == 0
+	}
+	if !schemaOK {
 		c.Discard("schema-failed")
 		return
 	}
@@ -405,7 +418,7 @@ func c33RunFn(c *core.Ctx, raw json.RawMessage) {
 		c.ProbeN("snapshots_taken", int(opsStat("num_snapshots")-snaps0))
 	}()
 
-	if !x.history(sc.Ops) {
+	if !x.history(sc.Ops) || len(x.fatals) > 0 {
 		return
 	}
 	recovered, functional, ok := x.recoverRound(sc.Rec, 1)
@@ -462,6 +475,26 @@ func (x *c33Run) hit(point string) error {
 		return errC33Injected
 	}
 	return nil
+}
+
+// fatal is called where rqlite would deliberately exit the process (e.g. the
+// snapshot sink when an incremental snapshot loses its staged WAL directory to
+// a concurrent snapshot install). The process cannot be killed from here and
+// the node would go on running in a state the real one never has, so the run
+// is not judged: documented discard reason "node-hard-exit".
+func (x *c33Run) fatal(point string, err error) bool {
+	x.fatals = append(x.fatals, point+": "+strings.ReplaceAll(fmt.Sprint(err), x.s.Dir, ""))
+	x.c.Discard("node-hard-exit: " + point)
+	return true
+}
+
+// clean renders an error without the per-process scratch directory (event-log
+// lines must be the same in every process).
+func (x *c33Run) clean(err error) string {
+	if err == nil {
+		return "<nil>"
+	}
+	return strings.ReplaceAll(err.Error(), x.s.Dir, "")
 }
 
 func (x *c33Run) leader() *node.Node { return x.s.Leader() }
@@ -532,8 +565,11 @@ func (x *c33Run) history(ops []c33Op) bool {
 				}
 			}
 			// updates/deletes/DDL are never left in an unapplied tail (row-wise
-			// containment is only meaningful for tails of inserts)
-			opsSettle(s, 0)
+			// containment is only meaningful for tails of inserts) - whatever the
+			// outcome of the request was
+			if !x.settleHard(op.Kind) {
+				return false
+			}
 		case "async":
 			if l == nil {
 				continue
@@ -561,7 +597,7 @@ func (x *c33Run) history(ops []c33Op) bool {
 			}
 			var err error
 			s.Do("snapshot", 60*time.Second, func() { err = tgt.Store.Snapshot(uint64(op.N)) })
-			c.Log.Add("%d snapshot %s@%s trailing=%d err=%v", s.StepN, tgt.ID, tgt.HostName, op.N, err)
+			c.Log.Add("%d snapshot %s@%s trailing=%d err=%v", s.StepN, tgt.ID, tgt.HostName, op.N, x.clean(err))
 			if err == nil {
 				c.Probe("user_snapshots")
 			}
@@ -581,11 +617,18 @@ func (x *c33Run) history(ops []c33Op) bool {
 			} else {
 				s.Do("boot", 60*time.Second, func() { _, lerr = l.Store.ReadFrom(strings.NewReader(string(data))) })
 			}
-			c.Log.Add("%d %s gen=%d rows=%d err=%v", s.StepN, op.Kind, x.loadGen, op.N, lerr)
+			c.Log.Add("%d %s gen=%d rows=%d err=%v", s.StepN, op.Kind, x.loadGen, op.N, x.clean(lerr))
 			if lerr == nil {
 				c.Probe(op.Kind + "s")
-				// a load is never left in an unapplied tail: wait for everybody
-				opsSettle(s, 0)
+			} else {
+				c.Probe(op.Kind + "_failed_or_unknown")
+			}
+			// a load is never left in an unapplied tail: wait for everybody. Also when the
+			// request FAILED: "leadership lost while committing log" leaves the entry in the
+			// old leader's log, where it is either overwritten by the next leader or
+			// committed after all - both must have happened before a victim is chosen.
+			if !x.settleHard(op.Kind) {
+				return false
 			}
 		case "isolate":
 			if l == nil {
@@ -617,7 +660,23 @@ func (x *c33Run) history(ops []c33Op) bool {
 			s.RunFor(time.Duration(op.Ms) * time.Millisecond)
 		}
 	}
-	return !c.Failed() && !s.Capped
+	return !c.Failed() && !s.Capped && len(x.fatals) == 0
+}
+
+// settleHard waits until the cluster has demonstrably settled (opsSettled). A
+// run in which that does not happen within 3 simulated minutes cannot be
+// judged row-wise and is discarded under a documented reason.
+func (x *c33Run) settleHard(after string) bool {
+	opsSettle(x.s, 0)
+	if opsSettled(x.s) {
+		return true
+	}
+	if !x.s.RunUntil(func() bool { return opsSettled(x.s) }, 120*time.Second) {
+		x.c.Log.Add("%d cluster did not settle after %s", x.s.StepN, after)
+		x.c.Discard("not-settled-after-non-insert-request")
+		return false
+	}
+	return true
 }
 
 func (x *c33Run) isolate(n *node.Node) {
@@ -666,6 +725,7 @@ func (x *c33Run) recoverRound(rec c33Recovery, round int) (recovered []*node.Nod
 		n := v.orig
 		rs := n.Store.VerifReadState()
 		v.mayTail = rs.LastLogIndex > rs.RaftAppliedIndex
+		v.lastIdx, v.lastTrm = rs.LastLogIndex, n.Store.VerifLastLogTerm()
 		c.Log.Add("%d %s victim %s@%s leader=%v last-log=%d raft-applied=%d fsm=%d commit=%d may-have-unapplied-tail=%v mode=%s",
 			s.StepN, tag, n.ID, n.HostName, rs.Leader, rs.LastLogIndex, rs.RaftAppliedIndex, rs.FSMIndex, rs.CommitIndex, v.mayTail, rec.Mode)
 		if v.mayTail {
@@ -770,7 +830,7 @@ func (x *c33Run) recoverRound(rec c33Recovery, round int) (recovered []*node.Nod
 			var err error
 			fin := s.Do(fmt.Sprintf("%s %s@%s", what, nn.ID, nn.HostName), 300*time.Second, func() { err = nn.Start() })
 			if !fin || err != nil {
-				c.Violate("recover-open-failed", "%s: node %s did not reopen with a valid peers file [%s] after %s (%s, finished=%v): %v", tag, nn.ID, wantCfg, rec.Mode, what, fin, err)
+				c.Violate("recover-open-failed", "%s: node %s did not reopen with a valid peers file [%s] after %s (%s, finished=%v): %v", tag, nn.ID, wantCfg, rec.Mode, what, fin, x.clean(err))
 				return false
 			}
 			return true
@@ -801,7 +861,7 @@ func (x *c33Run) recoverRound(rec c33Recovery, round int) (recovered []*node.Nod
 			}
 			x.hookMode, x.hookK = "count", -1
 			if fin, err := tryOpen("recover-open(counting)"); !fin || err != nil {
-				c.Violate("recover-open-failed", "%s: node %s did not reopen with a valid peers file [%s] after %s (finished=%v): %v", tag, nn.ID, wantCfg, rec.Mode, fin, err)
+				c.Violate("recover-open-failed", "%s: node %s did not reopen with a valid peers file [%s] after %s (finished=%v): %v", tag, nn.ID, wantCfg, rec.Mode, fin, x.clean(err))
 				return nil, false, false
 			}
 			total := x.hits
@@ -819,7 +879,7 @@ func (x *c33Run) recoverRound(rec c33Recovery, round int) (recovered []*node.Nod
 				x.hookMode, x.hookK = rec.Inject, 1+rec.K%total
 				x.hookDir, x.hookImg = nn.Dir, nn.Dir+".rimg"
 				fin, err := tryOpen(fmt.Sprintf("recover-open(%s at hook occurrence %d of %d)", rec.Inject, x.hookK, total))
-				c.Log.Add("%d %s inject %s at occurrence %d/%d = %s -> finished=%v err=%v", s.StepN, tag, rec.Inject, x.hookK, total, x.hitPoint, fin, err)
+				c.Log.Add("%d %s inject %s at occurrence %d/%d = %s -> finished=%v err=%v", s.StepN, tag, rec.Inject, x.hookK, total, x.hitPoint, fin, x.clean(err))
 				if !fin {
 					c.Violate("recover-open-failed", "%s: recovery attempt of node %s with %s at %s did not finish", tag, nn.ID, rec.Inject, x.hitPoint)
 					return nil, false, false
@@ -843,7 +903,7 @@ func (x *c33Run) recoverRound(rec c33Recovery, round int) (recovered []*node.Nod
 					}
 				case err != nil:
 					if rec.Inject != "error" || x.hitPoint == "" {
-						c.Violate("recover-open-failed", "%s: node %s did not reopen with a valid peers file [%s] after %s: %v", tag, nn.ID, wantCfg, rec.Mode, err)
+						c.Violate("recover-open-failed", "%s: node %s did not reopen with a valid peers file [%s] after %s: %v", tag, nn.ID, wantCfg, rec.Mode, x.clean(err))
 						return nil, false, false
 					}
 					// the injected I/O error made Open fail: the process exits, the operator starts it again
@@ -864,6 +924,9 @@ func (x *c33Run) recoverRound(rec c33Recovery, round int) (recovered []*node.Nod
 		c.Fault("recovered-" + rec.Mode)
 	}
 	synctest.Wait()
+	if len(x.fatals) > 0 {
+		return nil, false, false // a node asked to exit the process: run discarded (see fatal)
+	}
 
 	// ---------------- oracle: configuration and data right after reopening
 	check := func(when string) bool {
@@ -886,7 +949,7 @@ func (x *c33Run) recoverRound(rec c33Recovery, round int) (recovered []*node.Nod
 	for _, v := range victims {
 		post, err := s.DumpNode(v.n)
 		if err != nil {
-			c.Violate("recover-data", "%s %s: cannot dump the recovered database: %v", tag, v.n.ID, err)
+			c.Violate("recover-data", "%s %s: cannot dump the recovered database: %v", tag, v.n.ID, x.clean(err))
 			return nil, false, false
 		}
 		if !v.mayTail {
@@ -938,9 +1001,33 @@ func (x *c33Run) recoverRound(rec c33Recovery, round int) (recovered []*node.Nod
 			c.Violate("recover-no-leader", "%s: recovered voters (%d of %d in the peers file) did not elect a leader within 60s", tag, upVoters, voters)
 			return nil, false, false
 		}
-		wok, _, err := opsExec(s, l, c33Insert(marker))
+		// Several nodes recovered into one cluster only continue one history if their
+		// logs were identical (same last index and term, nothing unapplied). Otherwise
+		// each node has - correctly, and checked above - kept everything IT had, the
+		// recovery snapshots are forks of each other, and whichever node wins the
+		// election overwrites the others (also those that held more): what the cluster
+		// does from here on is not the subject of this property.
+		sameLogs := true
+		for _, v := range victims {
+			if v.mayTail || v.lastIdx != victims[0].lastIdx || v.lastTrm != victims[0].lastTrm {
+				sameLogs = false
+			}
+		}
+		var werr error
+		wok := false
+		for attempt := 0; attempt < 6 && !wok; attempt++ {
+			// a request may be refused or lose its leader while the new cluster is still
+			// electing: only a cluster that never accepts a write is a failure
+			if l = opsSettle(s, 0); l == nil {
+				continue
+			}
+			wok, _, werr = opsExec(s, l, c33Insert(marker+10*attempt))
+			if wok {
+				marker += 10 * attempt
+			}
+		}
 		if !wok {
-			c.Violate("recover-write-failed", "%s: write on recovered leader %s failed: %v", tag, l.ID, err)
+			c.Violate("recover-write-failed", "%s: no write was accepted by the recovered cluster in 6 attempts, last error: %v", tag, werr)
 			return nil, false, false
 		}
 		opsSettle(s, 500*time.Millisecond)
@@ -948,16 +1035,25 @@ func (x *c33Run) recoverRound(rec c33Recovery, round int) (recovered []*node.Nod
 			return nil, false, false
 		}
 		// every recovered node must now hold the new row on top of its data
+		l = s.Leader()
 		for _, v := range victims {
 			d, err := s.DumpNode(v.n)
 			if err != nil || !strings.Contains(d, fmt.Sprintf("|I%d|", marker)) {
-				c.Violate("recover-data", "%s %s: write after recovery not applied (err=%v)", tag, v.n.ID, err)
+				c.Violate("recover-data", "%s %s: write after recovery not applied (err=%v)", tag, v.n.ID, x.clean(err))
 				return nil, false, false
+			}
+			if !sameLogs && v.n != l {
+				continue
 			}
 			if miss := c33Missing(v.pre, d); miss != "" {
 				c.Violate("recover-data", "%s %s: after recovery and one more write the database lacks applied data: %s", tag, v.n.ID, miss)
 				return nil, false, false
 			}
+		}
+		if len(victims) > 1 && !sameLogs {
+			c.Probe("joint_recovery_of_unequal_logs_not_continued")
+			c.Sig(fmt.Sprintf("r%d/%s/%d/forked", round, rec.Mode, len(victims)))
+			return recovered, false, true
 		}
 		c.Probe("recovered_cluster_functional")
 		functional = true
